@@ -357,6 +357,15 @@ struct Config
         if (reinterpret_cast<std::uintptr_t>(base) % S != 0) violation("harness:block-not-storage-aligned");
         os << " dbeg=" << (v.data_begin() - base) << " dend=" << (v.data_end() - base);
         if (v.data_begin() != base) violation("C04:data_begin-is-not-block-begin v" + std::to_string(k));
+        if (v.size() == 0)
+        {
+            if (!v.empty()) violation("C18:size-zero-but-not-empty v" + std::to_string(k));
+            if (!(v.begin() == v.end())) violation("C18:begin-differs-from-end-on-empty-vector v" + std::to_string(k));
+            if (v.data_begin() != v.data_end()) violation("C18:data_begin-differs-from-data_end-on-empty-vector v" + std::to_string(k));
+            if (std::as_const(v).data_begin() != std::as_const(v).data_end()) violation("C18:const-data-range-not-empty v" + std::to_string(k));
+        }
+        else if (v.empty())
+            violation("C18:empty-but-size-nonzero v" + std::to_string(k));
         if (v.data_end() < v.data_begin() || static_cast<std::size_t>(v.data_end() - v.data_begin()) > v.memory_consumption())
             violation("C02:data-range-exceeds-consumption v" + std::to_string(k));
         if constexpr (FIXED_LOCATOR)
@@ -491,6 +500,39 @@ struct Config
         const long allocs_before = L.n_alloc, deallocs_before = L.n_dealloc;
         std::array<std::size_t, 8> cons_before{};
         for (std::size_t q = 0; q < vec.size(); ++q) cons_before[q] = vec[q].v ? vec[q].v->memory_consumption() : 0;
+        // C16 / C10 / C18: snapshots of what must not change
+        struct Snap
+        {
+            const std::byte* base = nullptr;
+            std::size_t size = 0, cap = 0;
+            std::vector<const std::byte*> starts;
+        };
+        auto snap = [&](int q) {
+            Snap sn;
+            if (!vec[q].v) return sn;
+            sn.base = reinterpret_cast<const std::byte*>(vec[q].v->memory_.get());
+            sn.size = vec[q].v->size();
+            sn.cap = vec[q].v->capacity();
+            if (sn.base)
+                for (std::size_t e = 0; e < sn.size; ++e) sn.starts.push_back(reinterpret_cast<const std::byte*>((*vec[q].v)[e].data_begin()));
+            return sn;
+        };
+        std::array<Snap, 8> before;
+        for (std::size_t q = 0; q < vec.size(); ++q) before[q] = snap(static_cast<int>(q));
+        // addresses of the first `keep` elements and the block itself are unchanged, nothing was requested from the allocator
+        auto stable = [&](int q, std::size_t keep, const char* what) {
+            if (!vec[q].v) return;
+            const auto now = snap(q);
+            if (now.base != before[q].base) violation(std::string("C16:block-address-changed op=") + what);
+            if (L.n_alloc != allocs_before) violation(std::string("C16:allocator-called op=") + what);
+            if (now.cap != before[q].cap) violation(std::string("C16:capacity-changed op=") + what);
+            for (std::size_t e = 0; e < keep && e < now.starts.size() && e < before[q].starts.size(); ++e)
+                if (now.starts[e] != before[q].starts[e])
+                {
+                    violation(std::string("C16:address-of-remaining-element-changed op=") + what + " index=" + std::to_string(e));
+                    break;
+                }
+        };
         // C05 footprint clause: an operation never makes a vector consume more than it did, than its source did,
         // or than a fresh vector of the requested capacity and payload budget would
         auto footprint = [&](int d, std::size_t bound, const char* what) {
@@ -557,6 +599,7 @@ struct Config
             auto vals = parse_vals(t[2]);
             emplace(*vec[k].v, vals, std::make_index_sequence<N>{});
             vec[k].oracle.push_back(vals);
+            stable(k, before[k].size, "emplace_back");
             dump(k);
         }
         else if (op == "pop")
@@ -564,6 +607,7 @@ struct Config
             int k = vidx(t[1]);
             vec[k].v->pop_back();
             vec[k].oracle.pop_back();
+            stable(k, before[k].size - 1, "pop_back");
             dump(k);
         }
         else if (op == "erase")
@@ -573,6 +617,8 @@ struct Config
             auto it = vec[k].v->erase(vec[k].v->begin() + static_cast<std::ptrdiff_t>(i));
             vec[k].oracle.erase(vec[k].oracle.begin() + static_cast<std::ptrdiff_t>(i));
             out << "ret=" << it.index() << "\n";
+            if (it.index() != i) violation("C01:erase-returns-wrong-iterator");
+            stable(k, i, "erase");
             dump(k);
         }
         else if (op == "eraser")
@@ -582,6 +628,8 @@ struct Config
             auto it = vec[k].v->erase(vec[k].v->begin() + static_cast<std::ptrdiff_t>(i), vec[k].v->begin() + static_cast<std::ptrdiff_t>(j));
             vec[k].oracle.erase(vec[k].oracle.begin() + static_cast<std::ptrdiff_t>(i), vec[k].oracle.begin() + static_cast<std::ptrdiff_t>(j));
             out << "ret=" << it.index() << "\n";
+            if (it.index() != i) violation("C01:erase-returns-wrong-iterator");
+            stable(k, i, "erase-range");
             dump(k);
         }
         else if (op == "clear")
@@ -589,6 +637,7 @@ struct Config
             int k = vidx(t[1]);
             vec[k].v->clear();
             vec[k].oracle.clear();
+            stable(k, 0, "clear");
             dump(k);
         }
         else if (op == "reserve")
@@ -600,6 +649,14 @@ struct Config
                 const std::size_t need = FIXED_LOCATOR ? std::stoull(t[3]) + es.stride * std::stoull(t[2])
                                                        : ET::calculate_needed_memory_size(std::stoull(t[2]), std::stoull(t[3]), es);
                 footprint(k, std::max(cons_before[k], (need + S - 1) / S * S), "reserve");
+                const std::size_t nreq = std::stoull(t[2]);
+                if (vec[k].v->capacity() < before[k].cap) violation("C10:reserve-reduced-capacity");
+                if (vec[k].v->size() != before[k].size) violation("C10:reserve-changed-size");
+                if (nreq <= before[k].cap)
+                    stable(k, before[k].size, "reserve-within-capacity");
+                else if (vec[k].v->capacity() != nreq)
+                    violation("C10:capacity-after-reserve-is-not-n");
+                if (nreq <= before[k].cap && (L.n_alloc != allocs_before || L.n_dealloc != deallocs_before)) violation("C10:reserve-within-capacity-is-not-a-no-op");
             }
             dump(k);
         }
@@ -622,6 +679,8 @@ struct Config
         {
             int s = vidx(t[1]), d = vidx(t[2]);
             vec[d].v = std::make_unique<Vector>(std::move(*vec[s].v));
+            if (L.n_alloc != allocs_before) violation("C16:move-construction-allocates");
+            if (reinterpret_cast<const std::byte*>(vec[d].v->memory_.get()) != before[s].base) violation("C16:move-construction-did-not-take-over-the-block");
             vec[d].oracle = vec[s].oracle;
             vec[d].fixed = vec[s].fixed;
             vec[d].oracle_valid = vec[s].oracle_valid;
@@ -633,6 +692,8 @@ struct Config
         {  // copyassign vS vT : vT = vS
             int s = vidx(t[1]), d = vidx(t[2]);
             *vec[d].v = std::as_const(*vec[s].v);
+            if (s == d && (reinterpret_cast<const std::byte*>(vec[d].v->memory_.get()) != before[d].base || vec[d].v->size() != before[d].size))
+                violation("C09:self-copy-assignment-changed-the-vector");
             footprint(d, std::max(cons_before[d], cons_before[s]), "copyassign");
             vec[d].oracle = vec[s].oracle;
             vec[d].fixed = vec[s].fixed;
@@ -646,6 +707,8 @@ struct Config
             const bool steals = AllocT::is_always_equal::value || AllocT::propagate_on_container_move_assignment::value ||
                                 vec[d].v->get_allocator() == vec[s].v->get_allocator();
             *vec[d].v = std::move(*vec[s].v);
+            if (s == d && (reinterpret_cast<const std::byte*>(vec[d].v->memory_.get()) != before[d].base || vec[d].v->size() != before[d].size))
+                violation("C09:self-move-assignment-changed-the-vector");
             footprint(d, std::max(cons_before[d], cons_before[s]), steals ? "moveassign-steal" : "moveassign-elementwise");
             if (s != d)
             {
@@ -665,6 +728,11 @@ struct Config
             int a = vidx(t[1]), b = vidx(t[2]);
             using std::swap;
             swap(*vec[a].v, *vec[b].v);
+            if (L.n_alloc != allocs_before) violation("C16:swap-allocates");
+            if (a != b && (reinterpret_cast<const std::byte*>(vec[a].v->memory_.get()) != before[b].base ||
+                           reinterpret_cast<const std::byte*>(vec[b].v->memory_.get()) != before[a].base))
+                violation("C09:swap-did-not-exchange-the-blocks");
+            if (a == b && reinterpret_cast<const std::byte*>(vec[a].v->memory_.get()) != before[a].base) violation("C09:self-swap-changed-the-vector");
             if (a != b)
             {
                 std::swap(vec[a].oracle, vec[b].oracle);
